@@ -5,6 +5,7 @@ import common
 
 PROPS = "RotoV.Props.C20"
 PROPS_MEM = "RotoV.Props.C20Mem"
+PROPS_REGS = "RotoV.Props.C20Regs"
 
 
 def search(ctx):
@@ -12,15 +13,30 @@ def search(ctx):
         ctx.harness("c20", ["run", ctx.seed + 7919, "thorough"], timeout=3000, name="search:c20")
 
 
+def _prove(ctx, acc, module, **kw):
+    """ctx.prove keeps the theorem list of the last module only: accumulate over the three modules"""
+    for k in ("theorems", "nonvacuity_examples", "axioms"):
+        ctx.coverage.pop(k, None)
+    ctx.prove(module, **kw)
+    acc["theorems"] += ctx.coverage.get("theorems", [])
+    acc["nonvacuity_examples"] += ctx.coverage.get("nonvacuity_examples", 0)
+    acc["axioms"].update(ctx.coverage.get("axioms", {}))
+    ctx.coverage.update(acc)
+
+
 def run(ctx):
-    ctx.extract(["optables", "evalarms", "evalmem"])
+    acc = {"theorems": [], "nonvacuity_examples": 0, "axioms": {}}
+    ctx.extract(["optables", "evalarms", "evalmem", "evalregs"])
     # the scalar theorems do not depend on Generated/EvalMem: built without the driver, so that a
     # change of the memory / control-flow code is attributed to the theorems it breaks
-    ctx.prove(PROPS, extra_modules=["RotoV.Lemmas.ScalarBase", "RotoV.Lemmas.ScalarDiv", "RotoV.Lemmas.Scalar", "RotoV.Lemmas.ScalarEval", "RotoV.Model.RustStd", "RotoV.Model.Lir", "RotoV.Model.Clif"],
+    _prove(ctx, acc, PROPS, extra_modules=["RotoV.Lemmas.ScalarBase", "RotoV.Lemmas.ScalarDiv", "RotoV.Lemmas.Scalar", "RotoV.Lemmas.ScalarEval", "RotoV.Model.RustStd", "RotoV.Model.Lir", "RotoV.Model.Clif"],
               extra_targets=())
     # T2 memory_checked / T3 switch_agrees over Generated/EvalMem (Memory, Allocation, StackFrame,
     # the Switch arms of the evaluator and of the code generator)
-    ctx.prove(PROPS_MEM, extra_modules=["RotoV.Model.EvalMem"])
+    _prove(ctx, acc, PROPS_MEM, extra_modules=["RotoV.Model.EvalMem"])
+    # T4 registers_keyed_by_scope_and_name over Generated/EvalRegs (Var / VarKind, the key of the evaluator's
+    # register file and of the code generator's variable map, eval_operand)
+    _prove(ctx, acc, PROPS_REGS, extra_modules=["RotoV.Model.EvalRegs"], extra_targets=())
     if ctx.build_harness("c20"):
         ctx.harness("c20", ["run", ctx.seed, ctx.tier], timeout=3000)
     ctx.trusted += [
